@@ -115,6 +115,14 @@ example : ∀ ml ∈ [1, 2, 4, 256],
     fftTop natOps17 ml tw17 in17 = some (Array.ofFn (n := 16) fun i => fftRec natOps17 (twf tw17) 4 (vw in17) i) := by
   decide +kernel
 
+/-- TEST: a strided window (`count = 2, stride = 4, offset = 1` on 16 values: the two sub-sequences `1 + 4j` and
+    `2 + 4j` are transformed, `0 + 4j` and `3 + 4j` are left alone) -/
+example : ∀ ml ∈ [1, 2, 256],
+    (fftInPlace natOps17 ml tw17 5 2 4 1 in17).map (fun b => (List.range 16).map (vw b)) =
+      some ((List.range 16).map fun p =>
+        if 1 ≤ p % 4 ∧ p % 4 < 3 then fftRec natOps17 (twf tw17) 2 (sub in17 (p % 4) 4) (p / 4) else vw in17 p) := by
+  decide +kernel
+
 /-! ## the model's entry points over a field -/
 
 section field
@@ -240,6 +248,11 @@ theorem three_primitive_mod_17 : IsPrimitiveRoot (3 : ZMod 17) (2 ^ 4) := by
   intro l h0 hl
   have hl' : l < 16 := by simpa using hl
   interval_cases l <;> decide
+
+/-- instances of the hypotheses of (b) and (c): `4^2 = -1`, `3^(2^3) = -1` and the twiddle table `3^brev` -/
+example : (4 : ZMod 17) ^ 2 = -1 ∧ ((4 : Nat) ≥ 1 → (3 : ZMod 17) ^ 2 ^ (4 - 1) = -1) ∧
+    TwOk (fun i => (3 : ZMod 17) ^ brev 3 i) 3 4 :=
+  ⟨by decide, fun _ => by decide, fun _ _ _ => rfl⟩
 
 /-- instance of the hypotheses of the theorems above: `F = M = ZMod 17`, `τ = 3`, `A = 4`, transforms of size
     `2^(k+1) = 4` with blowup `2^b = 4` (the LDE domain is the whole group of order 16), 3 columns, width 2 -/
